@@ -2,6 +2,7 @@ package props
 
 import (
 	"astverif/errflow"
+	"astverif/extrarules"
 	"astverif/layout"
 	"astverif/muxstate"
 )
@@ -28,6 +29,7 @@ func c04(c *Ctx) {
 	for _, d := range ck.IP.Diag {
 		r.Unknown("A0", "diag/"+d, "", d)
 	}
+	extrarules.PUSIOnlyWithPESHeader(c.P, r)
 	muxstate.First(c.P, r)
 	errflow.E5(c.P, r, apiCountFuncs)
 	errflow.E5b(c.P, r, apiCountFuncs)
